@@ -14,9 +14,11 @@ structure VecV where
 
 def compLetters : List String := ["x", "y", "z"]
 
+def compLetter (i : Nat) : String := compLetters.getD i "?"
+
 /-- the `name` setter: components are called `<name>_<c>` -/
 def VecV.rename (v : VecV) (name : String) : VecV :=
-  { comps := (List.zipWith (fun (c : ArrV) l => { c with name := name ++ "_" ++ l }) v.comps compLetters),
+  { comps := v.comps.mapIdx (fun i (c : ArrV) => { c with name := name ++ "_" ++ compLetter i }),
     name := name }
 
 /-- `Vector(x=Array, y=Array, z=Array)`: shapes and units of y, z must match x -/
